@@ -148,8 +148,10 @@ def run(ctx):
         for a in errs:
             v = a.value
             first = None
-            if isinstance(v, ast.BinOp) and isinstance(v.op, ast.Mod) and isinstance(v.right, ast.Tuple) and v.right.elts:
-                first = v.right.elts[0]
+            from sa.template import template, holes
+            hs = holes(template(v))
+            if hs:
+                first = hs[0].expr
             if first is not None and (norm(first).endswith("error_pos[0]") or (isinstance(first, ast.Call) and call_name(first) == "curlineno")):
                 ctx.holds("Z3", "error text line = %s" % norm(first))
             else:
